@@ -12,7 +12,7 @@ import lib_lsm as L
 import vlib
 
 
-def body(c, prop="C12", kinds='{"val", "del"}', nvks=(1,), invariants=("ReadStable", "Retention", "Structure", "NoInvention", "AgeOrdered")):
+def body(c, prop="C12", kinds='{"val", "del", "exp"}', nvks=(1,), invariants=("ReadStable", "Retention", "Structure", "NoInvention", "AgeOrdered")):
     q = c.quick
     rnd = random.Random(c.seed)
     base = dict(L.BASE, Kinds=kinds)
@@ -21,7 +21,7 @@ def body(c, prop="C12", kinds='{"val", "del"}', nvks=(1,), invariants=("ReadStab
         consts = dict(base, NVK=str(nvk))
         if q:
             consts.update(MaxTs="3", MaxId="6")
-            if len(kinds) > 20:
+            if kinds.count(',') >= 3:
                 # retention is decided per key: with all four entry kinds the quick model check uses one key
                 consts.update(Keys="{1}", MaxTs="4", MaxId="7")
         L.model_check(c, "picks NVK=%d" % nvk, consts, invariants, timeout=1800)
@@ -53,6 +53,22 @@ def body(c, prop="C12", kinds='{"val", "del"}', nvks=(1,), invariants=("ReadStab
         c.cov.setdefault("l0l0_cases_with_excluded_tables", 0)
         c.cov["l0l0_cases_with_excluded_tables"] += len(L.dedupe(rest))
         allcases += cases
+    deep = []
+    if prop == "C13":
+        # one key with many versions on both sides of the watermark in one compaction: the retention
+        # counter (NumVersionsToKeep) has to start counting at the watermark, not at the newest version
+        for nvk in nvks:
+            g = dict(base, Keys="{1}", NVK=str(nvk), MaxTs="6", MaxId="9", Wide="0", L0Hold="0", MtMax="3")
+            cs = L.generate(c, "one key, many versions NVK=%d" % nvk, g, c.seed + 20 + nvk, simulate=(700 if q else 12000),
+                            depth=40, workers=4)
+
+            def straddles(x):
+                d = x["pre"]["discardTs"]
+                ents = [e for t in x["pre"]["L0"] for e in t["ents"]] + [e for lv in x["pre"]["lv"] for t in lv for e in t["ents"]]
+                return any(e["ts"] > d for e in ents) and sum(1 for e in ents if e["ts"] <= d) >= 2
+            deep += [x for x in L.dedupe(cs) if x["fam"] != "L0ToL0" and straddles(x)]
+        rnd.shuffle(deep)
+        c.cov["cases_with_versions_on_both_sides_of_the_watermark"] = len(deep)
     allcases = L.dedupe(allcases)
     total = len(allcases)
     nmem, ndisk = (600, 90) if q else (12000, 1500)
@@ -84,7 +100,7 @@ def body(c, prop="C12", kinds='{"val", "del"}', nvks=(1,), invariants=("ReadStab
     others = [x for x in allcases if id(x) not in sk]
     rnd.shuffle(special)
     rnd.shuffle(others)
-    mem = special[:nmem // 3] + others[:nmem - min(len(special), nmem // 3)]
+    mem = deep[:(150 if q else 4000)] + special[:nmem // 3] + others[:nmem - min(len(special), nmem // 3)]
     disk = special[:ndisk // 3] + others[nmem:nmem + ndisk]
     L.replay(c, prop, mem, "state injection (in-memory tables)", inmem=True)
     if disk:
